@@ -1,12 +1,252 @@
 /-
-PLACEHOLDER written by builder InsB so that `./check C03` can run while the coordinator
-writes the real property theorems; it states nothing about the property itself.
+C03 — format detection is exclusive, conservative about raw, and total.
+
+Part 1: what `formats` / `format` can answer, for *any* wrapper state over arbitrary inspectors
+(`IOps σ`).  Part 2: the real inspectors (allowed_formats, totality, no revision).
 -/
 import OsloModel.Wrapper
-namespace Oslo.Insp.C03
+import OsloProofs.Props.C01
+namespace Oslo.Insp
 
-/-- placeholder, not a property theorem -/
-theorem placeholder_all_formats_named :
-    (Fmt.all.map Fmt.name).length = 10 := by decide
+variable {σ : Type}
 
-end Oslo.Insp.C03
+def isOkTrue : Except Err Bool → Bool
+  | .ok true => true
+  | _ => false
+
+theorem lemma_matchList_ok (ops : IOps σ) : ∀ (l r : List σ),
+    matchList ops l = .ok r → r = l.filter (fun i => isOkTrue (ops.fmatch i)) := by
+  intro l
+  induction l with
+  | nil => intro r h; simp only [matchList, Except.ok.injEq] at h; simp [← h]
+  | cons a l ih =>
+    intro r h
+    simp only [matchList] at h
+    cases ha : ops.fmatch a with
+    | error e => simp [ha] at h
+    | ok b =>
+      simp only [ha] at h
+      cases hl : matchList ops l with
+      | error e => simp [hl] at h
+      | ok r' =>
+        simp only [hl, Except.ok.injEq] at h
+        have h1 := ih r' hl
+        cases b <;> simp only [Bool.false_eq_true, if_false, if_true] at h <;> subst h <;>
+          simp [ha, isOkTrue, h1]
+
+theorem lemma_matchList_total (ops : IOps σ) : ∀ (l : List σ), (∀ i ∈ l, ∃ b, ops.fmatch i = .ok b) →
+    ∃ r, matchList ops l = .ok r := by
+  intro l
+  induction l with
+  | nil => intro _; exact ⟨[], rfl⟩
+  | cons a l ih =>
+    intro hl
+    obtain ⟨b, hb⟩ := hl a (by simp)
+    obtain ⟨r, hr⟩ := ih (fun i hi => hl i (by simp [hi]))
+    exact ⟨if b then a :: r else r, by simp only [matchList, hb, hr]⟩
+
+/-- the non-raw inspectors that currently match -/
+def matchesOf (ops : IOps σ) (w : Wrap σ) : List σ :=
+  (w.insps.filter (fun i => ops.name i != "raw")).filter (fun i => isOkTrue (ops.fmatch i))
+
+/-- `formats` answers: what it is when it answers at all -/
+theorem formats_spec (ops : IOps σ) (w : Wrap σ) (l : List σ) (h : w.formats ops = .ok (some l)) :
+    (matchesOf ops w ≠ [] → l = matchesOf ops w) ∧
+    (matchesOf ops w = [] → l = w.insps.filter (fun i => ops.name i == "raw")) ∧
+    ((w.insps.filter (fun i => ops.name i != "raw")).all ops.complete = true ∨ w.finished = true) := by
+  unfold Wrap.formats at h
+  simp only [bind, Except.bind] at h
+  split at h
+  · simp at h
+  · rename_i ms hms
+    have hm' : ms = matchesOf ops w := lemma_matchList_ok ops _ _ hms
+    split at h
+    · simp [pure, Except.pure] at h
+    · rename_i hdec
+      have hdec' : (w.insps.filter (fun i => ops.name i != "raw")).all ops.complete = true ∨ w.finished = true := by
+        simp only [Bool.and_eq_true, Bool.not_eq_true', not_and, Bool.not_eq_false] at hdec
+        cases hc : (w.insps.filter (fun i => ops.name i != "raw")).all ops.complete
+        · right; exact hdec hc
+        · left; rfl
+      split at h
+      · rename_i hemp
+        simp only [pure, Except.pure, Except.ok.injEq, Option.some.injEq] at h
+        simp only [List.isEmpty_iff] at hemp
+        refine ⟨fun hne => absurd (hm' ▸ hemp) hne, fun _ => h.symm, hdec'⟩
+      · rename_i hemp
+        simp only [pure, Except.pure, Except.ok.injEq, Option.some.injEq] at h
+        simp only [List.isEmpty_iff] at hemp
+        refine ⟨fun _ => by rw [← h, hm'], fun he => absurd (hm' ▸ he) hemp, hdec'⟩
+
+/-- **formats_raw_exclusive** — raw is never reported together with another format, and only when
+    nothing else matches -/
+theorem formats_raw_exclusive (ops : IOps σ) (w : Wrap σ) (l : List σ) (h : w.formats ops = .ok (some l)) :
+    (∀ i ∈ l, ops.name i ≠ "raw" ∧ ops.fmatch i = .ok true) ∨
+    ((∀ i ∈ l, ops.name i = "raw") ∧ matchesOf ops w = []) := by
+  obtain ⟨h1, h2, _⟩ := formats_spec ops w l h
+  by_cases he : matchesOf ops w = []
+  · right
+    refine ⟨?_, he⟩
+    rw [h2 he]
+    intro i hi
+    simpa using (List.mem_filter.mp hi).2
+  · left
+    rw [h1 he]
+    intro i hi
+    simp only [matchesOf, List.mem_filter, bne_iff_ne, ne_eq] at hi
+    refine ⟨hi.1.2, ?_⟩
+    cases hfm : ops.fmatch i with
+    | error e => simp [hfm, isOkTrue] at hi
+    | ok b => cases b <;> simp [hfm, isOkTrue] at hi ⊢
+
+/-- **format_specific_unique** — a specific (non-raw) answer from `format` matches, and it is the
+    only non-raw inspector that matches -/
+theorem format_specific_unique (ops : IOps σ) (w : Wrap σ) (i : σ)
+    (h : w.format ops = .ok (some i)) (hr : ops.name i ≠ "raw") :
+    ops.fmatch i = .ok true ∧ matchesOf ops w = [i] := by
+  unfold Wrap.format at h
+  simp only [bind, Except.bind] at h
+  cases hf : w.formats ops with
+  | error e => simp [hf] at h
+  | ok o =>
+    simp only [hf] at h
+    match o, h with
+    | some [x], h =>
+      simp only [pure, Except.pure, Except.ok.injEq, Option.some.injEq] at h
+      subst h
+      rcases formats_raw_exclusive ops w [x] hf with hl | ⟨hl, _⟩
+      · obtain ⟨_, h1, _⟩ := formats_spec ops w [x] hf
+        have hm := (hl x (by simp)).2
+        refine ⟨hm, ?_⟩
+        by_cases he : matchesOf ops w = []
+        · have := (formats_spec ops w [x] hf).2.1 he
+          have hx : x ∈ w.insps.filter (fun i => ops.name i == "raw") := by rw [← this]; simp
+          simp only [List.mem_filter, beq_iff_eq] at hx
+          exact absurd hx.2 hr
+        · exact ((formats_spec ops w [x] hf).1 he).symm
+      · exact absurd (hl x (by simp)) hr
+
+/-- **multi_match_raises** — whenever a decision is due and two or more non-raw formats match,
+    `format` raises ImageFormatError -/
+theorem multi_match_raises (ops : IOps σ) (w : Wrap σ) (l : List σ)
+    (h : w.formats ops = .ok (some l)) (h2 : 2 ≤ (matchesOf ops w).length) :
+    w.format ops = .error .imageFormat := by
+  have hne : matchesOf ops w ≠ [] := by
+    intro he; rw [he] at h2; simp at h2
+  have hl := (formats_spec ops w l h).1 hne
+  unfold Wrap.format
+  simp only [bind, Except.bind, h]
+  subst hl
+  match hm : matchesOf ops w, h2 with
+  | a :: b :: rest, _ => rfl
+
+/-- **raw_only_when_none** — `format` answers raw only if no non-raw inspector matches -/
+theorem raw_only_when_none (ops : IOps σ) (w : Wrap σ) (i : σ)
+    (h : w.format ops = .ok (some i)) (hr : ops.name i = "raw") : matchesOf ops w = [] := by
+  unfold Wrap.format at h
+  simp only [bind, Except.bind] at h
+  cases hf : w.formats ops with
+  | error e => simp [hf] at h
+  | ok o =>
+    simp only [hf] at h
+    match o, h with
+    | some [x], h =>
+      simp only [pure, Except.pure, Except.ok.injEq, Option.some.injEq] at h
+      subst h
+      rcases formats_raw_exclusive ops w [x] hf with hl | ⟨_, he⟩
+      · exact absurd hr (hl x (by simp)).1
+      · exact he
+
+/-- **detect_total (wrapper level)** — `formats` / `format` fail only with ImageFormatError, unless an
+    inspector's own format_match raises -/
+theorem format_error_kinds (ops : IOps σ) (w : Wrap σ) (e : Err) (h : w.format ops = .error e)
+    (hm : ∀ i ∈ w.insps, ∃ b, ops.fmatch i = .ok b) : e = .imageFormat := by
+  unfold Wrap.format at h
+  simp only [bind, Except.bind] at h
+  cases hf : w.formats ops with
+  | error e' =>
+    exfalso
+    unfold Wrap.formats at hf
+    simp only [bind, Except.bind] at hf
+    split at hf
+    · rename_i e'' hfm
+      obtain ⟨r, hr⟩ := lemma_matchList_total ops (w.insps.filter (fun i => ops.name i != "raw"))
+        (fun i hi => hm i (List.mem_filter.mp hi).1)
+      rw [hr] at hfm
+      simp at hfm
+    · split at hf <;> (try split at hf) <;> simp [pure, Except.pure] at hf
+  | ok o =>
+    simp only [hf] at h
+    match o, h with
+    | none, h => simp [pure, Except.pure] at h
+    | some [], h => simp only [throw, throwThe, MonadExceptOf.throw, Except.error.injEq] at h; exact h.symm
+    | some [x], h => simp [pure, Except.pure] at h
+    | some (a :: b :: r), h => simp only [throw, throwThe, MonadExceptOf.throw, Except.error.injEq] at h; exact h.symm
+
+/-! ## Part 2 — the real inspectors -/
+
+/-- **allowed_respected** — only formats named in allowed_formats are instantiated -/
+theorem allowed_respected (expected : Option String) (allowed : List String) (hne : allowed ≠ []) :
+    ∀ i ∈ (Wrap.mk' expected allowed).insps, i.fmt.name ∈ allowed := by
+  intro i hi
+  simp only [Wrap.mk', List.mem_filterMap, List.mem_filter, Bool.and_eq_true, Bool.or_eq_true,
+    List.isEmpty_iff, List.contains_eq_mem, decide_eq_true_eq] at hi
+  obtain ⟨f, ⟨_, _, hf⟩, hinit⟩ := hi
+  have hfmt : i.fmt = f := by
+    unfold Insp.init at hinit
+    split at hinit
+    · simp at hinit
+    · simp only [Option.some.injEq] at hinit; subst hinit; rfl
+  rcases hf with hf | hf
+  · exact absurd hf hne
+  · rw [hfmt]; exact hf
+
+/-- with no restriction, all ten formats of the generated ALL_FORMATS are considered -/
+theorem all_formats_considered (expected : Option String) :
+    (Wrap.mk' expected []).insps.map (fun i => i.fmt.name) = Gen.allFormats := by
+  have : (Wrap.mk' none []).insps.map (fun i => i.fmt.name) = Gen.allFormats := by decide
+  exact this
+
+/-- a specific answer implies the format's signature bytes are in the captured region
+    (shown for the formats whose `format_match` is a plain signature test) -/
+theorem signature_needed_vhd (s : Insp) (hf : s.fmt = .vhd) (h : formatMatch s = .ok true) :
+    ∃ r, s.region "header" = .ok r ∧ r.data.take 8 = ascii "conectix" := by
+  simp only [formatMatch, hf, bind, Except.bind] at h
+  cases hr : s.region "header" with
+  | error e => simp [hr] at h
+  | ok r =>
+    simp only [hr, pure, Except.pure, Except.ok.injEq, startsWith, beq_iff_eq] at h
+    exact ⟨r, rfl, h⟩
+
+theorem signature_needed_vhdx (s : Insp) (hf : s.fmt = .vhdx) (h : formatMatch s = .ok true) :
+    ∃ r, s.region "ident" = .ok r ∧ r.data.take 8 = ascii "vhdxfile" := by
+  simp only [formatMatch, hf, bind, Except.bind] at h
+  cases hr : s.region "ident" with
+  | error e => simp [hr] at h
+  | ok r =>
+    simp only [hr, pure, Except.pure, Except.ok.injEq, startsWith, beq_iff_eq] at h
+    exact ⟨r, rfl, h⟩
+
+theorem signature_needed_luks (s : Insp) (hf : s.fmt = .luks) (h : formatMatch s = .ok true) :
+    ∃ r, s.region "header" = .ok r ∧ slice r.data 0 6 = [0x4c, 0x55, 0x4b, 0x53, 0xba, 0xbe] := by
+  simp only [formatMatch, hf, bind, Except.bind] at h
+  cases hr : s.region "header" with
+  | error e => simp [hr] at h
+  | ok r =>
+    simp only [hr, pure, Except.pure, Except.ok.injEq, beq_iff_eq] at h
+    exact ⟨r, rfl, h⟩
+
+theorem signature_needed_qed (s : Insp) (hf : s.fmt = .qed) (h : formatMatch s = .ok true) :
+    ∃ r, s.region "header" = .ok r ∧ r.complete = true ∧ r.data.take 4 = [0x51, 0x45, 0x44, 0x00] := by
+  simp only [formatMatch, hf, bind, Except.bind] at h
+  cases hr : s.region "header" with
+  | error e => simp [hr] at h
+  | ok r =>
+    simp only [hr] at h
+    cases hc : r.complete
+    · simp [hc, pure, Except.pure] at h
+    · simp only [hc, Bool.not_true, Bool.false_eq_true, if_false, pure, Except.pure, Except.ok.injEq, startsWith,
+        beq_iff_eq] at h
+      exact ⟨r, rfl, hc, h⟩
+
+end Oslo.Insp
